@@ -39,6 +39,7 @@ type workerSpec struct {
 	Thorough      bool
 	ReplayFile    string
 	Known         []string // finding classes listed as known: for C09
+	Filter        string   // development aid (C09_FILTER): only units whose name contains this
 }
 
 func main() {
@@ -91,7 +92,11 @@ func workerMain(sp workerSpec) {
 	us := units(sp.Thorough)
 	if sp.OnlyUnit >= 0 {
 		u := &us[sp.OnlyUnit]
-		res := runUnit(sp.OnlyUnit, u, func(seq int) {
+		run := runUnit
+		if u.o2 {
+			run = runUnitO2
+		}
+		res := run(sp.OnlyUnit, u, func(seq int) {
 			binary.LittleEndian.PutUint64(jb[0:], uint64(sp.OnlyUnit))
 			binary.LittleEndian.PutUint64(jb[8:], uint64(seq))
 			jf.WriteAt(jb[:], 0)
@@ -101,7 +106,7 @@ func workerMain(sp workerSpec) {
 		return
 	}
 	for ui := sp.From; ui < len(us); ui++ {
-		if ui%sp.Shards != sp.Shard {
+		if ui%sp.Shards != sp.Shard || (sp.Filter != "" && !strings.Contains(us[ui].name(), sp.Filter)) {
 			continue
 		}
 		if sp.DeadlineNs != 0 && time.Now().UnixNano() > sp.DeadlineNs {
@@ -109,7 +114,11 @@ func workerMain(sp workerSpec) {
 			return
 		}
 		u := &us[ui]
-		res := runUnit(ui, u, func(seq int) {
+		run := runUnit
+		if u.o2 {
+			run = runUnitO2
+		}
+		res := run(ui, u, func(seq int) {
 			binary.LittleEndian.PutUint64(jb[0:], uint64(ui))
 			binary.LittleEndian.PutUint64(jb[8:], uint64(seq))
 			jf.WriteAt(jb[:], 0)
@@ -173,6 +182,11 @@ func replayOne(path string) replayResult {
 	}
 	c := doc.Case
 	c.Query = q.String()
+	if doc.O2 != nil {
+		sc.o2, sc.split = true, doc.O2.Split
+		outcome, classes, what, sqlText, uns := sc.judgeO2(c.Query, c)
+		return replayResult{Outcome: outcome, Classes: classes, What: what + " " + uns + " SQL: " + sqlText}
+	}
 	out := c09lib.Run(c)
 	eof := false
 	for _, m := range c.Msgs {
@@ -281,6 +295,16 @@ func describe(us []unit, ui, seq int) json.RawMessage {
 	q := u.query()
 	text := q.String()
 	var doc json.RawMessage
+	if u.o2 {
+		forEachCaseO2(u, func(s int, sc *scope, c c09lib.Case) bool {
+			if s == seq {
+				doc = sc.replayO2(text, c, "")
+				return false
+			}
+			return true
+		})
+		return doc
+	}
 	forEachCase(u, func(s int, sc *scope, fr framing) bool {
 		if s == seq {
 			doc = sc.replay(text, sc.buildCase(text, fr), fr)
@@ -337,12 +361,19 @@ func parentMain() {
 		nu := map[string]int{}
 		for i := range us {
 			k := fmt.Sprintf("%s/tail%d/level%d", us[i].kind, len(us[i].pipe.stages)-1, us[i].level)
+			if us[i].o2 {
+				k = fmt.Sprintf("o2/%s/stages%d", us[i].kind, len(us[i].pipe.stages))
+			}
 			nu[k]++
 			if nu[k] > 40 && nu[k]%25 != 0 {
 				continue // sample: every 25th unit of a category is counted exactly
 			}
 			n := int64(0)
-			forEachCase(&us[i], func(int, *scope, framing) bool { n++; return true })
+			if us[i].o2 {
+				forEachCaseO2(&us[i], func(int, *scope, c09lib.Case) bool { n++; return true })
+			} else {
+				forEachCase(&us[i], func(int, *scope, framing) bool { n++; return true })
+			}
 			if nu[k] > 40 {
 				n *= 25
 			}
@@ -371,6 +402,7 @@ func parentMain() {
 		crashedUnits        []string
 		flaky               []string
 		unitErrs            []string
+		chsimUnsupported    []string
 	}{outcomes: map[string]int64{}, classes: map[string]int64{}, unsupported: map[string]int64{}}
 	confirmed := map[string]bool{} // crash class -> reproduced 3x
 	onUnit := func(ur *unitResult) {
@@ -392,6 +424,11 @@ func parentMain() {
 		}
 		for k, v := range ur.Classes {
 			totals.classes[k] += v
+		}
+		for _, x := range ur.Unsupported {
+			if len(totals.chsimUnsupported) < 20 {
+				totals.chsimUnsupported = append(totals.chsimUnsupported, x)
+			}
 		}
 		if ur.Err != "" && len(totals.unitErrs) < 20 {
 			totals.unitErrs = append(totals.unitErrs, ur.Name+": "+ur.Err)
@@ -415,7 +452,7 @@ func parentMain() {
 			defer wg.Done()
 			journal := fmt.Sprintf("%s/journal-%d", scratch, k)
 			sp := workerSpec{Shard: k, Shards: nw, From: 0, OnlyUnit: -1, OnlySeq: -1, DeadlineNs: r.Deadline.UnixNano(),
-				Journal: journal, Thorough: r.Thorough(), Known: known}
+				Journal: journal, Thorough: r.Thorough(), Known: known, Filter: os.Getenv("C09_FILTER")}
 			idle := 0
 			for {
 				os.WriteFile(journal, make([]byte, 16), 0o644)
@@ -510,13 +547,23 @@ func parentMain() {
 	r.Extra["unsupported_shapes"] = uns
 	r.Extra["units_cut_short_by_crash"] = cu
 	r.Extra["workers"] = nw
-	r.Extra["o2"] = "not run: see NOTES.md"
+	o2n := int64(0)
+	for k, v := range totals.outcomes {
+		if strings.HasPrefix(k, "o2:") {
+			o2n += v
+		}
+	}
+	r.Extra["o2"] = map[string]any{"split_executions": o2n, "chsim_unsupported_examples": totals.chsimUnsupported,
+		"note": "every pipeline position is a split point (real breakScript), SQL part executed by mc/chsim; outcomes prefixed o2:"}
 	if len(totals.flaky) > 0 {
 		r.Extra["worker_deaths_not_reproduced"] = totals.flaky
 	}
 	if len(totals.unitErrs) > 0 {
 		r.Extra["unit_errors"] = totals.unitErrs
 		ev.Fatal("reference evaluator failed on enumerated queries: %v", totals.unitErrs)
+	}
+	if f := os.Getenv("C09_FILTER"); f != "" {
+		r.Cap("development filter C09_FILTER=" + f)
 	}
 	if totals.unitsDone+len(totals.crashedUnits) < len(us) && r.Exhaustive {
 		ev.Fatal("units lost: %d finished + %d crashed of %d", totals.unitsDone, len(totals.crashedUnits), len(us))
